@@ -1043,8 +1043,38 @@ def C12(tier):
             shutil.rmtree(d, ignore_errors=True)
         if bad:
             break
-    return [result('C12.standin.index_histories', bad is None,
-                   '%d random histories x %d steps over 8 keys / 7 values against OrderedDict, reopen/pickle' % (nh, steps), cases, bad)]
+    out = [result('C12.standin.index_histories', bad is None,
+                  '%d random histories x %d steps over 8 keys / 7 values against OrderedDict, reopen/pickle' % (nh, steps), cases, bad)]
+    # equality against every small mapping (None values, missing keys, same and different lengths and orders)
+    import itertools
+    bad2 = None
+    n2 = 0
+    keys, vals = ['a', 'b', (1, 2)], [None, 0, 1]
+    maps = [()]
+    for r in (1, 2):
+        for ks in itertools.permutations(keys, r):
+            for vs in itertools.product(vals, repeat=r):
+                maps.append(tuple(zip(ks, vs)))
+    d = tempfile.mkdtemp()
+    try:
+        for i, left in enumerate(maps):
+            ix = diskcache.Index(os.path.join(d, 'e%d' % i), list(left))
+            ref = collections.OrderedDict(left)
+            for right in maps:
+                for other in (dict(right), collections.OrderedDict(right)):
+                    n2 += 1
+                    if (ix == other) != (ref == other) or (ix != other) != (ref != other):
+                        bad2 = bad2 or 'Index(%r) == %s(%r) is %r, OrderedDict says %r' % (list(left), type(other).__name__, list(right), ix == other, ref == other)
+            ix.cache.close()
+            if bad2:
+                break
+    except Exception as e:
+        bad2 = bad2 or 'raised %r' % (e,)
+    finally:
+        shutil.rmtree(d, ignore_errors=True)
+    out.append(result('C12.standin.equality_with_small_mappings', bad2 is None,
+                      'all pairs of the %d mappings with <= 2 of 3 keys over values {None, 0, 1}, against dict and OrderedDict' % len(maps), n2, bad2))
+    return out
 
 
 # ====================================================================== queues (C10)
@@ -1156,7 +1186,7 @@ def C17(tier):
     import sqlite3
     import diskcache
     damages = ['delete_file', 'truncate', 'extend', 'add_file', 'empty_dir', 'nested_empty', 'count', 'size', 'add_file_deep',
-               'count_as_if_removed', 'size_as_if_removed', 'add_file_top']
+               'count_as_if_removed', 'size_as_if_removed', 'add_file_top', 'truncate_zero']
     combos = [()] + [(x,) for x in damages] + list(itertools.combinations(damages, 2))
     if tier != 'quick':
         combos += list(itertools.combinations(damages, 3))
@@ -1181,11 +1211,13 @@ def C17(tier):
                 for i in range(8):
                     c.set('big%d' % i, b'x' * (200 + i))
                     c.set('small%d' % i, i)
+                import io as _io
+                c.set('empty', _io.BytesIO(b''), read=True)       # a legitimately empty value file: not damage
                 c.close()
                 vals = []
                 for sd in shard_dirs:
                     for dp, dn, fn in os.walk(sd):
-                        vals += [os.path.join(dp, f) for f in fn if f.endswith('.val')]
+                        vals += [os.path.join(dp, f) for f in fn if f.endswith('.val') and os.path.getsize(os.path.join(dp, f)) > 0]
                 vals.sort()
                 sd = shard_dirs[0]
                 damaged_keys = set()
@@ -1196,6 +1228,8 @@ def C17(tier):
                         open(vals[1], 'wb').write(b'x' * 10)
                     elif dm == 'extend':
                         open(vals[2], 'ab').write(b'yy')
+                    elif dm == 'truncate_zero':
+                        open(vals[5], 'wb').close()
                     elif dm == 'add_file':
                         open(os.path.join(os.path.dirname(vals[3]), 'stray.val'), 'wb').write(b'junk')
                     elif dm == 'add_file_top':
@@ -1249,13 +1283,16 @@ def C17(tier):
                     v = c.get('big%d' % i)
                     if v is not None:
                         n += 1
-                        if len(v) < 10:
+                        if len(v) < 10 and 'truncate_zero' not in combo:
                             bad = bad or '%s %r: item big%d unreadable' % (kind, combo, i)
                 if bad:
                     break
                 exp_removed = (1 if 'delete_file' in combo else 0)
-                if len(c) != 16 - exp_removed:
-                    bad = '%s %r: %d items remain, expected %d' % (kind, combo, len(c), 16 - exp_removed)
+                if len(c) != 17 - exp_removed:
+                    bad = '%s %r: %d items remain, expected %d' % (kind, combo, len(c), 17 - exp_removed)
+                    break
+                if c.get('empty') != b'':
+                    bad = '%s %r: the undamaged empty file-backed item reads %r' % (kind, combo, c.get('empty'))
                     break
                 c.close()
             except Exception as e:
@@ -1267,7 +1304,7 @@ def C17(tier):
         if bad:
             break
     return [result('C17.standin.damage_combinations', bad is None,
-                   'all subsets of size <= %d of 12 damage kinds (files deleted/truncated/extended/added at three depths, empty and nested empty directories, count, size) on Cache and a 2-shard FanoutCache' % (2 if tier == 'quick' else 3), cases, bad)]
+                   'all subsets of size <= %d of 13 damage kinds (files deleted/truncated (also to zero bytes)/extended/added at three depths, empty and nested empty directories, count, size) on Cache and a 2-shard FanoutCache' % (2 if tier == 'quick' else 3), cases, bad)]
 
 
 # ====================================================================== lock timeouts (C14)
